@@ -35,9 +35,13 @@ static QAD *c06_b64enc(QAD *raw) { uint32_t n = raw->f1; if (n == 0) return qb_n
   uint32_t h = c06_hint(raw); ASSERT(2 * n <= QB_CAP, "QByteArray capacity of the model exceeded (base64)"); QAD *d = qb_new(2 * n, 2 * h); vpl_b64enc(d, qb_bytes(raw), n, h); C06_BD(d)[2 * n] = 0; return d; }
 #define C06_B64CAP 3
 static struct { QAD *txt; QAD *out; uint8_t ok; } c06_b64tab[C06_B64CAP]; static uint32_t c06_nb64;
+static uint8_t c06_b64_expect_valid;   /* harness switch: every text decoded is known to come from the encoder (asserted) */
+void vp_b64_expect_valid(uint8_t on) { c06_b64_expect_valid = on; }
 static QAD *c06_b64dec(QAD *enc, uint8_t *ok) { *ok = 1; uint32_t n = enc->f1; if (n == 0) return qb_new(0, 0);
   if (c06_is_lit(enc, "biws", 4)) return c06_from((const uint8_t*)"n,,", 3);
   uint32_t h = c06_hint(enc); uint8_t valid = vpl_b64valid(qb_bytes(enc), n, h);
+  if (c06_b64_expect_valid) { ASSERT(valid, "base64 text expected to come from the encoder"); ASSUME(valid); QAD *d = qb_new(n / 2, (h + 1) / 2); const uint8_t *s = qb_bytes(enc);
+    for (uint32_t i = 0; i < QB_CAP / 2; i++) { if (2 * i + 1 >= n || 2 * i + 1 >= h + 1) break; C06_BD(d)[i] = (uint8_t)(((s[2 * i] - 'A') << 4) | (s[2 * i + 1] - 'a')); } C06_BD(d)[n / 2] = 0; return d; }
   /* outside the image: arbitrary outcome (invalid, or <= 3 arbitrary bytes), but the same text always decodes the same way */
   uint8_t avalid = vp_bool(); uint32_t alen = vp_u32(); uint8_t a0 = vp_u8(), a1 = vp_u8(), a2 = vp_u8(); ASSUME(alen <= 3); if (!avalid) alen = 0;
   for (uint32_t k = 0; k < C06_B64CAP; k++) { if (k >= c06_nb64) break; if (qb_eq(c06_b64tab[k].txt, enc)) { QAD *p = c06_b64tab[k].out; avalid = c06_b64tab[k].ok; alen = p->f1; a0 = qb_bytes(p)[0]; a1 = qb_bytes(p)[1]; a2 = qb_bytes(p)[2]; break; } }
@@ -80,16 +84,18 @@ static uint32_t vpl_split_scan(const uint8_t *s, uint32_t n, uint32_t hint, uint
    split() on exactly that block then uses the (concrete) boundaries - after asserting that they are right - instead of
    scanning symbolic bytes, so every piece has a concrete length. */
 static QAD *c06_hint_blk; static uint32_t c06_hint_np, c06_hint_st[C06_MAXP], c06_hint_ln[C06_MAXP]; static uint8_t c06_hint_sep;
-void vp_split_hint_begin(char *ba, uint8_t sep) { c06_hint_blk = QBD(ba); c06_hint_np = 0; c06_hint_sep = sep; }
+static uint8_t c06_hint_any;
+void vp_split_hint_begin(char *ba, uint8_t sep) { c06_hint_blk = ba ? QBD(ba) : 0; c06_hint_any = ba == 0; c06_hint_np = 0; c06_hint_sep = sep; }
 void vp_split_hint_piece(uint32_t len) { ASSERT(c06_hint_np < C06_MAXP, "split hint: too many pieces"); c06_hint_st[c06_hint_np] = c06_hint_np ? c06_hint_st[c06_hint_np - 1] + c06_hint_ln[c06_hint_np - 1] + 1 : 0; c06_hint_ln[c06_hint_np] = len; c06_hint_np++; }
 void _ZNK10QByteArray5splitEc(char *ret, char *self, uint8_t sep) { QAD *a = QBD(self); ASSERT(!numB(a).isnum, "split of an abstract number string"); uint32_t h = c06_hint(a);
   uint32_t st[C06_MAXP], ln[C06_MAXP]; for (uint32_t k = 0; k < C06_MAXP; k++) { st[k] = 0; ln[k] = 0; } uint32_t np;
-  if (a == c06_hint_blk && sep == c06_hint_sep && c06_hint_np > 0) { np = c06_hint_np; uint32_t total = c06_hint_st[np - 1] + c06_hint_ln[np - 1]; ASSERT(a->f1 == total, "split hint: total length"); ASSUME(a->f1 == total);
+  uint8_t hinted = (a == c06_hint_blk || c06_hint_any) && sep == c06_hint_sep && c06_hint_np > 0;
+  if (hinted) { np = c06_hint_np; uint32_t total = c06_hint_st[np - 1] + c06_hint_ln[np - 1]; ASSERT(a->f1 == total, "split hint: total length"); ASSUME(a->f1 == total);
     uint32_t k = 0; for (uint32_t i = 0; i < QB_CAP; i++) { if (i >= total) break; uint8_t is_sep = (k + 1 < np && i == c06_hint_st[k + 1] - 1); ASSERT((qb_bytes(a)[i] == sep) == is_sep, "split hint: separator positions"); if (is_sep) k++; }
     for (uint32_t j = 0; j < C06_MAXP; j++) { st[j] = c06_hint_st[j]; ln[j] = c06_hint_ln[j]; } }
   else { np = vpl_split_scan(qb_bytes(a), a->f1, h, sep, st, ln); ASSERT(np <= C06_MAXP, "QList capacity of the model exceeded (split)"); ASSUME(np <= C06_MAXP); }
   struct ld *l = ld_new(np);
-  for (uint32_t k = 0; k < C06_MAXP; k++) { if (k >= np) break; QAD *p = qb_new(ln[k], ln[k] < h ? (a == c06_hint_blk ? ln[k] : h) : h); c06_copy8(p, 0, qb_bytes(a) + st[k], ln[k], h); C06_BD(p)[ln[k]] = 0; l->array[k] = (char*)p; }
+  for (uint32_t k = 0; k < C06_MAXP; k++) { if (k >= np) break; QAD *p = qb_new(ln[k], hinted ? ln[k] : h); c06_copy8(p, 0, qb_bytes(a) + st[k], ln[k], h); C06_BD(p)[ln[k]] = 0; l->array[k] = (char*)p; }
   *(struct ld**)ret = l; }
 #endif
 
@@ -181,8 +187,31 @@ void vp_sym_string_exact(char *out, uint32_t n) { ASSERT(n <= 8, "symbolic strin
 uint32_t vp_cfg(uint32_t i) { return i == 0 ? C06_CFG0 : i == 1 ? C06_CFG1 : i == 2 ? C06_CFG2 : i == 3 ? C06_CFG3 : i == 4 ? C06_CFG4 : C06_CFG5; }
 uint32_t vp_diglen(void) { return C06_DIGLEN; }
 /* QXmpp::Private::serializeXml(const void*, void(*)(const void*, QXmlStreamWriter*)) needs a QXmlStreamWriter over a QByteArray
-   device; it is redirected to a harness helper that serialises into the DOM/writer tree model (h_mgr.cpp) */
-#ifdef C06_SERIALIZE_VIA_HARNESS
-void F_vp_serialize_xml(char *ret, char *packet, char *fn);
-void _ZN5QXmpp7Private12serializeXmlEPKvPFvS2_P16QXmlStreamWriterE(char *ret, char *packet, char *fn) { F_vp_serialize_xml(ret, packet, fn); }
+   device (not modelled).  CUT: the bytes the managers send are not inspected; calls are counted.  (Calling the toXml callback
+   through std::invoke on a pointer-to-member stored in integer words makes cbmc explore spurious recursion.) */
+#ifdef HAVE_T_struct_QArrayData
+static uint32_t c06_serialized;
+uint32_t vp_serialize_count(void) { return c06_serialized; }
+void _ZN5QXmpp7Private12serializeXmlEPKvPFvS2_P16QXmlStreamWriterE(char *ret, char *packet, char *fn) { c06_serialized++; QBD(ret) = qb_new(0, 0); }
 #endif
+#ifdef HAVE_T_struct_QArrayData
+/* formatting of log / error texts: identity (texts are not part of the property) */
+void _ZNK7QString3argERKS_i5QChar(char *ret, char *self, char *a, uint32_t w, uint16_t fill) { *(QAD**)ret = qad_ref(*(QAD**)self); }
+void _ZNK7QString3argERKS_S1_(char *ret, char *self, char *a, char *b) { *(QAD**)ret = qad_ref(*(QAD**)self); }
+#endif
+#ifdef HAVE_T_struct_QArrayData
+/* QByteArray::replace(char before, const QByteArray &after) / replace(const char*, const char*): every occurrence, left to right; in place */
+static uint8_t s_match(const uint8_t *s, uint32_t n, uint32_t i, const uint8_t *pat, uint32_t pl) { if (i + pl > n) return 0; if (s[i] != pat[0]) return 0; if (pl == 2 && s[i + 1] != pat[1]) return 0; return 1; }
+static QAD *c06_replace(QAD *a, const uint8_t *pat, uint32_t pl, const uint8_t *rep, uint32_t rl) { uint32_t n = a->f1, h = c06_hint(a); ASSERT(!numB(a).isnum, "replace in an abstract number string"); ASSERT(pl >= 1 && pl <= 2, "replace: pattern length 1..2 modelled");
+  uint32_t grow = rl > pl ? rl - pl : 0; uint32_t oh = h + h * grow; if (oh > QB_CAP) oh = QB_CAP; QAD *d = qb_new(0, oh); uint32_t j = 0;
+  for (uint32_t i = 0; i < QB_CAP; i++) { if (i >= n || i >= h) break; uint8_t m = s_match(qb_bytes(a), n, i, pat, pl);
+    if (m) { ASSERT(j + rl <= QB_CAP, "QByteArray capacity of the model exceeded (replace)"); for (uint32_t k = 0; k < 4; k++) { if (k >= rl) break; C06_BD(d)[j + k] = rep[k]; } j += rl; if (pl == 2) i++; }
+    else { ASSERT(j < QB_CAP, "QByteArray capacity of the model exceeded (replace)"); C06_BD(d)[j] = qb_bytes(a)[i]; j++; } }
+  d->f1 = j; C06_BD(d)[j] = 0; return d; }
+char* _ZN10QByteArray7replaceEcRKS_(char *self, uint8_t before, char *after) { QAD *r = QBD(after); ASSERT(r->f1 <= 4, "replace: replacement longer than 4 bytes"); QBD(self) = c06_replace(QBD(self), &before, 1, qb_bytes(r), r->f1); return self; }
+char* _ZN10QByteArray7replaceEPKcS1_(char *self, char *before, char *after) { uint32_t pl = c06_strlen((uint8_t*)before), rl = c06_strlen((uint8_t*)after); ASSERT(rl <= 4, "replace: replacement longer than 4 bytes"); QBD(self) = c06_replace(QBD(self), (uint8_t*)before, pl, (uint8_t*)after, rl); return self; }
+#endif
+/* QDateTime (8-byte value/d-pointer union): opaque word, never interpreted by the SASL code */
+void _ZN9QDateTimeC1ERKS_(char *self, char *o) { *(char**)self = *(char**)o; }
+void _ZN9QDateTimeC1EOS_(char *self, char *o) { *(char**)self = *(char**)o; }
+char* _ZN9QDateTimeaSERKS_(char *self, char *o) { *(char**)self = *(char**)o; return self; }
